@@ -286,13 +286,17 @@ theorem critical_params_declared :
 /-! ## tie to the source: the decision table of `_is_target_object` (regenerated on every run)
 
 `Gen.IsTarget.tree` is the decision tree obtained by running the REAL `_is_target_object` on symbolic inputs over every
-assignment of the decision atoms it queries (`harness/dt_c10.py`); `FilterTable.isTargetTree` is the hand-written
-skeleton of the model over the same atoms. `DT.agree` decides — completely, for the finite decision space, by kernel
-evaluation — that the two give the same result under EVERY valuation of the atoms. A change of the source that alters
-a decision (an operator, a bound, a guard, the order of two tests that raise) changes the generated tree and the
-evaluation below yields `false`; a rewrite that keeps the decisions regenerates a tree for which it still yields `true`,
-with no edit here. When the translator cannot follow the source (`tree = none`) the statements hold vacuously and the
-check relies on the correspondence runs (the evidence says so). -/
+assignment of the decision atoms it queries (`harness/dt_c10.py`); `FilterTable.isTargetTreeR r` is the hand-written
+skeleton of the model over the same atoms under reading `r` of the three points the property text leaves open
+(`FilterTable.Reading`: is a ground truth's own confidence thresholded; does `target_labels == []` target everything or
+nothing; is the relaxed unknown estimate's confidence bound 0 or the mean). `DT.agree` decides — completely, for the
+finite decision space, by kernel evaluation — that the code's tree and the skeleton of the reading named by
+`Gen.IsTarget.readingHint` give the same result under EVERY valuation of the atoms, exception classes not compared (every
+exception is the one result `raise eRejected`). A change of the source that alters a decision the text states (an
+operator, a bound, a guard, a criterion, raising instead of returning) changes the generated tree so that it equals no
+reading's skeleton and the evaluation below yields `false`; a rewrite that keeps the decisions, or moves between readings,
+regenerates a tree for which it still yields `true`, with no edit here. When the translator cannot follow the source
+(`tree = none`) the statements hold vacuously and the check relies on the correspondence runs (the evidence says so). -/
 section Table
 open PEval.DT PEval.FilterTable
 
@@ -300,54 +304,72 @@ open PEval.DT PEval.FilterTable
 `label in target_labels` at every stage): the checker records their decisions -/
 def tableSticky : List Nat := [aIsGt, aTargetsNone, aLabelIn]
 
+/-- the reading the translator found to fit the current source (today's reading when the index is out of range) -/
+def tableReading : Reading := readings.getD Gen.IsTarget.readingHint today
+
 def isTargetTableOk : Bool :=
   match Gen.IsTarget.tree with
-  | some t => agree forbidden tableSticky t isTargetTree PA.empty
+  | some t => agree forbidden tableSticky t (mapRes canonRes (isTargetTreeR tableReading)) PA.empty
   | none => true
 
 /-- THE per-run obligation: the checker accepts the regenerated table (kernel evaluation over all paths) -/
 theorem isTarget_table_check : isTargetTableOk = true := by decide +kernel
 
-/-- the code's decision table equals the model's decision skeleton under every valuation of the atoms -/
+/-- no valuation is excluded from the per-run comparison: the list of forbidden conjunctions is empty -/
+theorem isTarget_all_valuations_consistent (v : Val) : consistent forbidden v = true := by
+  simp [consistent, forbidden]
+
+/-- the code's decision table equals the skeleton of ONE reading of the open points under every valuation of the atoms
+(exception classes merged) -/
 theorem isTarget_code_table_eq_model :
-    ∀ t, Gen.IsTarget.tree = some t → ∀ v : Val, consistent forbidden v = true → eval t v = isTargetAtoms v := by
+    ∀ t, Gen.IsTarget.tree = some t → ∃ r ∈ readings, ∀ v : Val, eval t v = canonRes (eval (isTargetTreeR r) v) := by
   intro t ht
   have h := isTarget_table_check
   unfold isTargetTableOk at h
   rw [ht] at h
-  exact agree_sound h
+  refine ⟨tableReading, mem_readings _, fun v => ?_⟩
+  rw [agree_sound h v (isTarget_all_valuations_consistent v), eval_mapRes]
 
-/-- no valuation is excluded: the list of forbidden conjunctions is empty for this function -/
-theorem isTarget_all_valuations_consistent (v : Val) : consistent forbidden v = true := by
-  simp [consistent, forbidden]
+/-- INSIDE the property's quantifier: the atoms of the input avoid the valuations on which the readings of the text part
+ways (`FilterTable.openValuations`: a ground truth whose own confidence fails the threshold or has no entry, an empty
+target list, a relaxed unknown estimate for which 0 and the mean confidence decide differently) -/
+def InQuantifier (P : Params) (o : Obj) : Prop := consistent openValuations (valuationOf P o) = true
+
+instance (P : Params) (o : Obj) : Decidable (InQuantifier P o) := by unfold InQuantifier; infer_instance
 
 /-- the bridge: the model `isTarget` is its decision skeleton applied to the atoms of the input (all inputs) -/
 theorem isTarget_eq_skeleton (P : Params) (o : Obj) :
     isTargetAtoms (valuationOf P o) = ofExcept (isTarget P o) :=
   isTarget_eq_tree P o
 
-/-- the CODE's decision table, read at the atoms of a concrete input, gives the model's verdict: the same Boolean, or
-the same exception kind -/
+/-- the CODE's decision table, read at the atoms of a concrete input inside the quantifier, gives the model's verdict: the
+same Boolean, or both reject -/
 theorem isTarget_code_table_eq_isTarget :
-    ∀ t, Gen.IsTarget.tree = some t → ∀ (P : Params) (o : Obj), eval t (valuationOf P o) = ofExcept (isTarget P o) := by
-  intro t ht P o
-  rw [isTarget_code_table_eq_model t ht _ (isTarget_all_valuations_consistent _)]
-  exact isTarget_eq_tree P o
+    ∀ t, Gen.IsTarget.tree = some t → ∀ (P : Params) (o : Obj), InQuantifier P o →
+      eval t (valuationOf P o) = canonRes (ofExcept (isTarget P o)) := by
+  intro t ht P o hq
+  obtain ⟨r, hr, h⟩ := isTarget_code_table_eq_model t ht
+  rw [h, readings_agree_outside_open hr _ hq]
+  exact congrArg canonRes (isTarget_eq_tree P o)
 
-/-- C10 for the code's table: whenever the table returns, it returns `True` exactly on the criteria -/
+/-- C10 for the code's table: whenever the table returns on an input inside the quantifier, it returns `True` exactly on
+the criteria -/
 theorem table_iff_criteria {t : DTree} (ht : Gen.IsTarget.tree = some t) {P : Params} {o : Obj} {b : Bool}
-    (h : eval t (valuationOf P o) = .ret b) : b = true ↔ Criteria P o := by
-  rw [isTarget_code_table_eq_isTarget t ht] at h
-  exact isTarget_iff_criteria (ofExcept_ret h)
+    (hq : InQuantifier P o) (h : eval t (valuationOf P o) = .ret b) : b = true ↔ Criteria P o := by
+  rw [isTarget_code_table_eq_isTarget t ht P o hq] at h
+  exact isTarget_iff_criteria (ofExcept_ret (canonRes_ret h))
 
-/-- for the code's table: an FP-labelled object passes whatever the configuration -/
+/-- for the code's table: an FP-labelled object passes whatever the configuration (every reading, every input) -/
 theorem table_fp_label_passes {t : DTree} (ht : Gen.IsTarget.tree = some t) (P : Params) (o : Obj) (h : IsFP o.label) :
     eval t (valuationOf P o) = .ret true := by
-  rw [isTarget_code_table_eq_isTarget t ht, fp_label_passes P o h]; rfl
+  obtain ⟨r, _, hr⟩ := isTarget_code_table_eq_model t ht
+  rw [hr, eval_isTargetTreeR_fp r _ (show (valuationOf P o).b aFp = true from (isFP_iff _).2 h)]
+  rfl
 
-/-- for the code's table: an unknown-labelled estimate (unknown not a target) is judged only against confidence 0 and
-the mean of each range list -/
+/-- for the code's table: an unknown-labelled estimate (unknown not a target) inside the quantifier is judged only
+against confidence 0 and the mean of each range list (inside the quantifier 0 and the mean confidence decide alike) -/
 theorem table_unknown_uses_mean {t : DTree} (ht : Gen.IsTarget.tree = some t) {P : Params} {o : Obj} {b : Bool}
+    (hq : InQuantifier P o)
     (hu : IsUnknown o.label) (hg : P.isGt = false) (hT : ∀ ts, P.targets = some ts → ∀ t ∈ ts, ¬ IsUnknown t)
     (h : eval t (valuationOf P o) = .ret b) :
     b = true ↔ (P.conf ≠ none → 0 < o.score) ∧ ∀ p, EgoPos P o p →
@@ -355,18 +377,29 @@ theorem table_unknown_uses_mean {t : DTree} (ht : Gen.IsTarget.tree = some t) {P
       (∀ l, P.maxY = some l → ∃ m, IsMean l m ∧ -m < p.y ∧ p.y < m) ∧
       (∀ l, P.maxDist = some l → ∃ m, IsMean l m ∧ 0 < m ∧ p.x * p.x + p.y * p.y < m * m) ∧
       (∀ l, P.minDist = some l → ∃ m, IsMean l m ∧ (m < 0 ∨ m * m < p.x * p.x + p.y * p.y)) := by
-  rw [isTarget_code_table_eq_isTarget t ht] at h
-  exact unknown_uses_mean hu hg hT (ofExcept_ret h)
+  rw [isTarget_code_table_eq_isTarget t ht P o hq] at h
+  exact unknown_uses_mean hu hg hT (ofExcept_ret (canonRes_ret h))
 
-/-- for the code's table: inside the documented contract the table never answers with an exception -/
+/-- for the code's table: inside the documented contract (and the quantifier) the table never answers with an exception -/
 theorem table_no_exception_in_contract {t : DTree} (ht : Gen.IsTarget.tree = some t) {P : Params} {o : Obj}
-    (hP : WFParams P) (hO : WFObj P o) : ∃ b, eval t (valuationOf P o) = .ret b := by
+    (hq : InQuantifier P o) (hP : WFParams P) (hO : WFObj P o) : ∃ b, eval t (valuationOf P o) = .ret b := by
   obtain ⟨b, hb⟩ := isTarget_total hP hO
-  exact ⟨b, by rw [isTarget_code_table_eq_isTarget t ht, hb]; rfl⟩
+  exact ⟨b, by rw [isTarget_code_table_eq_isTarget t ht P o hq, hb]; rfl⟩
+
+/-- non-vacuity of `InQuantifier`: an estimate and a ground truth with a confidence list it passes, a relaxed unknown
+estimate whose score exceeds both 0 and the mean; and the open inputs are outside -/
+example : InQuantifier exP (exObj 1 "AutowareLabel.CAR" 12 0) := by decide +kernel
+example : InQuantifier { exP with conf := some [1/4, 1/4] } (exObj 1 "AutowareLabel.CAR" 12 0) := by decide +kernel
+example : InQuantifier { exP with isGt := false, conf := some [1/4, 1/4] } (exObj 6 "AutowareLabel.UNKNOWN" 14 14) := by
+  decide +kernel
+example : ¬ InQuantifier { exP with conf := some [3/4, 3/4] } (exObj 1 "AutowareLabel.CAR" 12 0) := by decide +kernel
+example : ¬ InQuantifier { exP with targets := some [] } (exObj 1 "AutowareLabel.CAR" 12 0) := by decide +kernel
+example : ¬ InQuantifier { exP with isGt := false, conf := some [3/4, 3/4] } (exObj 6 "AutowareLabel.UNKNOWN" 14 14) := by
+  decide +kernel
 
 /-- non-vacuity: the table of the current source exists, and on a concrete input it gives the expected verdicts -/
 example : ∀ t, Gen.IsTarget.tree = some t → eval t (valuationOf exP (exObj 1 "AutowareLabel.CAR" 12 0)) = .ret false := by
-  intro t ht; rw [isTarget_code_table_eq_isTarget t ht]; decide +kernel
+  intro t ht; rw [isTarget_code_table_eq_isTarget t ht _ _ (by decide +kernel)]; decide +kernel
 
 end Table
 
